@@ -17,7 +17,6 @@ import (
 	"github.com/go-openapi/runtime/yamlpc"
 
 	"verif/engine/choice"
-	"verif/engine/doubles"
 )
 
 type Leaf struct {
@@ -185,14 +184,14 @@ var exactPairs = map[string][]string{
 // received to the consumer through a scripted reader, compare.
 func runRoundTrip(cs Case, content []byte, ch *choice.Chooser) verdict {
 	tag := cs.Codec + "-roundtrip:"
-	w := &doubles.Writer{Name: "w", C: ch, Faults: true}
-	wc := &wcloser{w: w}
+	w := &swriter{Name: "w", C: ch, Errs: cs.Errs, CloseFaults: true}
+	wc := w
 	var prod runtime.Producer
 	var cons runtime.Consumer
 	var source any
 	var newDest func() (data any, equal func() (bool, string))
-	var payload *doubles.Reader
-	var dstw *doubles.Writer
+	var payload *sreader
+	var dstw *swriter
 
 	if cs.Codec == "text" || cs.Codec == "bytestream" {
 		parts := strings.SplitN(cs.Kind, ">", 2)
@@ -247,8 +246,8 @@ func runRoundTrip(cs Case, content []byte, ch *choice.Chooser) verdict {
 		v.class, v.what = "closed-without-option", fmt.Sprintf("%s producer closed the writer although no closing option was requested", cs.Codec)
 		return v
 	}
-	pfault := payload != nil && payload.Failed != nil
-	if w.Failed != nil || pfault {
+	pfault := payload != nil && payload.Faulted()
+	if w.Faulted() || pfault {
 		if err == nil {
 			v.class = "write-error-swallowed"
 			if pfault {
@@ -265,9 +264,9 @@ func runRoundTrip(cs Case, content []byte, ch *choice.Chooser) verdict {
 		return v
 	}
 	wire := append([]byte(nil), w.Buf...)
-	rd := &doubles.Reader{Name: "r", Data: wire, C: ch, Faults: true, ZeroReads: cs.Zero}
+	rd := &sreader{Name: "r", Data: wire, C: ch, Errs: cs.Errs, Zero: cs.Zero, CloseFaults: true}
 	data, equal := newDest()
-	err, pan = call(func() error { return cons.Consume(&rcloser{rd}, data) })
+	err, pan = call(func() error { return cons.Consume(rd, data) })
 	if pan != "" {
 		v.class, v.what = "panic", fmt.Sprintf("%s consumer panicked on its own producer's output %s: %s", cs.Codec, q(wire), pan)
 		return v
@@ -276,9 +275,9 @@ func runRoundTrip(cs Case, content []byte, ch *choice.Chooser) verdict {
 		v.class, v.what = "closed-without-option", fmt.Sprintf("%s consumer closed the reader although no closing option was requested", cs.Codec)
 		return v
 	}
-	dfault := dstw != nil && dstw.Failed != nil
+	dfault := dstw != nil && dstw.Faulted()
 	if err != nil {
-		if rd.Failed == nil && !dfault {
+		if !rd.Faulted() && !dfault {
 			v.class, v.what = "unexpected-error", fmt.Sprintf("%s consumer failed on its own producer's output %s delivered without fault (%d reads): %v", cs.Codec, q(wire), rd.Reads, err)
 			return v
 		}
@@ -291,7 +290,7 @@ func runRoundTrip(cs Case, content []byte, ch *choice.Chooser) verdict {
 	}
 	ok, diff := equal()
 	if !ok {
-		if rd.Failed != nil {
+		if rd.Faulted() {
 			v.class = "read-error-swallowed"
 			v.what = fmt.Sprintf("%s consumer reported success with a different value after the reader failed at byte %d of %d: %s", cs.Codec, rd.Pos, len(wire), diff)
 		} else {
@@ -300,13 +299,13 @@ func runRoundTrip(cs Case, content []byte, ch *choice.Chooser) verdict {
 		}
 		return v
 	}
-	if (cs.Codec == "text" || cs.Codec == "bytestream") && rd.Failed != nil {
+	if (cs.Codec == "text" || cs.Codec == "bytestream") && rd.Faulted() {
 		// byte-exact codecs read to the end of the stream: a failure of the reader can only be reported
 		v.class, v.what = "read-error-swallowed", fmt.Sprintf("%s consumer reported success although the reader failed at byte %d of %d", cs.Codec, rd.Pos, len(wire))
 		return v
 	}
 	v.outcome = tag + "equal"
-	if rd.Failed != nil {
+	if rd.Faulted() {
 		v.outcome = tag + "equal-fault-after-complete-document"
 	}
 	return v
@@ -377,9 +376,9 @@ func runDest(cs Case, ch *choice.Chooser) verdict {
 	if err := prod.Produce(&wire, val.val); err != nil {
 		return verdict{class: "unexpected-error", what: fmt.Sprintf("%s producer failed into a bytes.Buffer: %v", cs.Codec, err)}
 	}
-	rd := &doubles.Reader{Name: "r", Data: wire.Bytes(), C: ch, Faults: true, ZeroReads: cs.Zero}
+	rd := &sreader{Name: "r", Data: wire.Bytes(), C: ch, Errs: cs.Errs, Zero: cs.Zero, CloseFaults: true}
 	data := bd.mk()
-	err, pan := call(func() error { return cons.Consume(&rcloser{rd}, data) })
+	err, pan := call(func() error { return cons.Consume(rd, data) })
 	v := verdict{nontrivial: true}
 	tag := cs.Codec + "-dest:"
 	if pan != "" {
